@@ -573,10 +573,15 @@ def rule_factories(repo: Repo, rep: Report) -> int:
         fi = repo.func(CU, fname)
         rets = returns_of(fi.node)
         ok = len(rets) == 1 and match(rets[0].value, "CompositeConstraint(constraints)") is not None
-        rep.shape(ok, False, "COMPOSITE-ORDER", fi, f"{fname} returns {unparse(rets[-1].value) if rets else '?'}", "the appended list, in order", "the factory does not return CompositeConstraint(<the list it built>)")
+        evaluated = factory_configs_evaluated(fi)
+        if not ok and evaluated:
+            # the list is assembled differently: the factory was evaluated with model constructors and returned a composite
+            # whose stages are judged below for every presence pattern of the optional parameters
+            rep.ok("COMPOSITE-ORDER", fi, f"{fname} returns {unparse(rets[-1].value) if rets else '?'}", f"evaluated for {len(evaluated)} argument patterns: a CompositeConstraint over the stages it built", node=rets[-1] if rets else fi.node)
+        else:
+            rep.shape(ok, False, "COMPOSITE-ORDER", fi, f"{fname} returns {unparse(rets[-1].value) if rets else '?'}", "the appended list, in order", "the factory does not return CompositeConstraint(<the list it built>)")
         n += 1
         seen = set()
-        evaluated = factory_configs_evaluated(fi)
         for atoms, stages in (evaluated if evaluated else factory_configs(fi)):
             names = [s for s, _ in stages]
             key = tuple(names)
